@@ -491,6 +491,47 @@ def row_merge(rng, workdir, n_cases, deadline):
     return fx.finish_row(row)
 
 
+def row_no_labelled_cell(rng, workdir, deadline):
+    """labelling in which no cell of the files is named by the taxonomy: every statistic is zero
+    (cells not named by the taxonomy contribute nothing).  FINDING P-1: the stage raises
+    AttributeError('NoneType' object has no attribute 'keys') instead (final_output stays None)."""
+    from cell_type_mapper.diff_exp.precompute_from_anndata import (
+        precompute_summary_stats_from_h5ad_list_and_tree)
+    row = fx.new_row('cell_type_mapper.diff_exp.precompute_from_anndata.'
+                     'precompute_summary_stats_from_h5ad_list_and_tree#no_labelled_cell', FORM,
+                     'datasets whose files hold no cell named by the taxonomy; n_processors in {1, 2}',
+                     ['a labelling that names no cell of the files gives all-zero statistics'])
+    for t, n_proc in enumerate((1, 2)):
+        if time.time() > deadline:
+            break
+        ds = make_dataset(rng, n_cells=4)
+        ds['labels'] = [None] * len(ds['names'])
+        tdata = tree_data(ds, phantom=True)
+        leaves = sorted(ds['clusters'])
+        want = oracle(ds, [(c, []) for c in leaves])
+        args = dict(n_processors=n_proc, X=ds['X'].tolist(), tree_leaves=tdata['cluster'])
+        row['cases'] += 1
+        out = os.path.join(workdir, f"z{t}_stats.h5")
+        tmp = os.path.join(workdir, f"z{t}_tmp")
+        os.makedirs(tmp)
+        try:
+            paths, layout = split_files(rng, ds, workdir, f"z{t}", 'raw')
+            with fx.quiet():
+                precompute_summary_stats_from_h5ad_list_and_tree(
+                    data_path_list=list(paths), taxonomy_tree=_tree(tdata), output_path=out,
+                    rows_at_a_time=2, normalization='raw', tmp_dir=tmp, n_processors=n_proc)
+        except BaseException as e:   # noqa
+            if isinstance(e, (KeyboardInterrupt, SystemExit)):
+                raise
+            fx.add_failure(row, 'a labelling that names no cell of the files gives all-zero statistics',
+                           'unexpected-exception', args, f"{type(e).__name__}: {e}")
+            continue
+        row['accepted'] += 1
+        fx.note_case(row, args)
+        compare_stats(row, read_stats(out), want, args, 'no labelled cell')
+    return fx.finish_row(row)
+
+
 # --------------------------------------------------------------------------------------------
 def run(tier='quick', seed=0, jobs=1):
     rng = random.Random(1009 * (int(seed) + 1))
@@ -506,4 +547,5 @@ def run(tier='quick', seed=0, jobs=1):
                                        deadline=t0 + budget * 0.72))
             rows.append(row_truncate(rng, d, n_datasets=8 if quick else 60, deadline=t0 + budget * 0.88))
             rows.append(row_merge(rng, d, n_cases=40 if quick else 400, deadline=t0 + budget))
+            rows.append(row_no_labelled_cell(rng, d, deadline=t0 + budget + 5))
     return rows
